@@ -247,12 +247,12 @@ var hashLine = regexp.MustCompile(`(?m)^\s*//p:t: ([0-9a-f]+)\s*$`)
 // ---- running a case ---------------------------------------------------------------------------------
 
 type runner struct {
-	c       Case
-	e       *lib.E2E
-	cache   string
-	dirRef  map[int]string // version -> `plz hash` value of the directory output (hashfunction)
-	incErr  error
-	nClean  int
+	c      Case
+	e      *lib.E2E
+	cache  string
+	dirRef map[int]string // version -> `plz hash` value of the directory output (hashfunction)
+	incErr error
+	nClean int
 }
 
 // dirHash obtains the reference hash of the directory output of a content version from `plz hash` in a
@@ -631,6 +631,24 @@ func gen(t *rapid.T) Case {
 		}
 		seen[k] = true
 		c.Versions = append(c.Versions, v)
+	}
+	if rapid.IntRange(0, 4).Draw(t, "scenario") == 0 {
+		// steered history: a state with a correct declared hash is built (and cached), then plz-out is wiped
+		// and the cached copy corrupted: the copy must be rejected, the target rebuilt, and the *rebuilt*
+		// output (not the rejected copy, nor whatever was hashed before) is what gets verified - so the
+		// build succeeds; a third build of the same state must then be a no-op success as well.
+		decl := []HashSpec{{Kind: "correct", Algo: rapid.SampledFrom([]string{"", "sha1", "sha256"}).Draw(t, "scenario_algo")}}
+		if c.HashCheckers != nil && decl[0].Algo != "" {
+			c.HashCheckers = append(c.HashCheckers, decl[0].Algo)
+		}
+		v := rapid.IntRange(0, nv-1).Draw(t, "scenario_ver")
+		c.Steps = []Step{
+			{Cmd: "build", Ver: v, Hashes: decl},
+			{Cmd: "build", Ver: v, Hashes: decl, Wipe: true, Poison: rapid.SampledFrom([]string{"flip", "swap"}).Draw(t, "scenario_poison")},
+			{Cmd: "build", Ver: v, Hashes: decl},
+		}
+		c.DirCompress = false
+		return c
 	}
 	ns := rapid.IntRange(2, 5).Draw(t, "nsteps")
 	ver := 0
